@@ -6,6 +6,7 @@ Mutant = 0
 Small = 0
 Encs = {"gzip", "identity"}
 Servers = {TRUE}
+HaveDecs = {TRUE, FALSE}
 INIT Init
 NEXT Next
 INVARIANT I_Ref
